@@ -150,7 +150,7 @@ def sc_dlc_poll(which):
         def app():
             if ctx.call('dlc.connect', lambda: s.connect(16))[0] == 'ret':
                 if which == 'send':
-                    ctx.call('dlc.send', lambda: s.send(b'one', NOWAIT))
+                    ctx.call('dlc.send-nowait', lambda: s.send(b'one', NOWAIT))
                 ctx.call('dlc.poll-' + which, lambda: s.poll(which))
                 ctx.call('dlc.poll-' + which, lambda: s.poll(which))
         return [('app', app)]
@@ -383,8 +383,187 @@ def monitor(ck, case, out):
 
 def run_case(case, chooser=None):
     sc = SCENARIOS[case['scenario']]
-    return L.run_scenario(sc['build'], case['cause'], case['end_at'], chooser=chooser, role=case['role'],
-                          peer_kw=copy_peer(sc.get('peer')), post=post_calls if case.get('post') else None)
+    out = L.run_scenario(sc['build'], case['cause'], case['end_at'], chooser=chooser, role=case['role'],
+                         peer_kw=copy_peer(sc.get('peer')), post=post_calls if case.get('post') else None,
+                         observe=CORR is not None)
+    if CORR is not None:
+        CORR.check_run(case, out)
+    return out
+
+
+# ------------------------------------------------------------------------------------------------
+# correspondence: every observed lock-hold segment of a socket call is a step of the LlcLife segment
+# function (extracted model, extract/c09_run.ml) on the observed socket state
+# ------------------------------------------------------------------------------------------------
+ENTRY = {'recv': 'PRecv0', 'recvfrom': 'PRecv0', 'poll-recv': 'PPoll0:recv', 'poll-send': 'PPoll0:send',
+         'poll-acks': 'PPoll0:acks', 'send': 'PSend0:0', 'sendto': 'PSend0:0', 'send-nowait': 'PSend0:1',
+         'accept': 'PAcc1', 'connect': 'PConn0', 'bind': 'PBind0', 'listen': 'PLis0', 'close': 'PClose0',
+         'resolve': 'PRes0'}
+UNLOCKED = {'PRecv0', 'PPoll0', 'PSend0', 'PSend0b', 'PConn0', 'PLis0', 'PBind0', 'PClose0', 'PRes0'}
+LLC_LOCKED = {'PSendBind', 'PConnBind', 'PLisBind', 'PBind1', 'PClose4', 'PRes1', 'PRes2', 'PAcc4', 'PAcc3'}
+
+
+def tree_is_fixed():
+    """does the tree under test contain the repairs fixes/c09-1..7 (then the model variant is Fixed)"""
+    import inspect
+    try:
+        if 'with self.lock' not in inspect.getsource(tco.RawAccessPoint.recv):
+            return False
+        if 'with self.lock' not in inspect.getsource(tco.DataLinkConnection.poll):
+            return False
+        if 'with self.lock' not in inspect.getsource(llcmod.LogicalLinkController.accept):
+            return False
+        llc = llcmod.LogicalLinkController(sec=False)
+        a = nfc.llcp.Socket(llc, LDL)
+        a.bind(40)
+        a.close()
+        a.close()
+        llc.mac = None
+        llc.terminate('probe')
+        if llc.resolve('urn:nfc:sn:x') is not None:
+            return False
+        try:
+            nfc.llcp.Socket(llc, LDL).bind(41)
+            return False
+        except nfc.llcp.Error:
+            pass
+        return True
+    except Exception:  # noqa
+        return False
+
+
+class Correspondence(object):
+    def __init__(self, ck, exe, variant):
+        import subprocess
+        self.ck, self.variant = ck, variant
+        self.p = subprocess.Popen([exe], stdin=subprocess.PIPE, stdout=subprocess.PIPE, bufsize=0)
+        self.cache = {}
+        self.nseg = 0
+        self.nmis = 0
+        self.strict = variant == 'Fixed'
+
+    def ask(self, line):
+        r = self.cache.get(line)
+        if r is None:
+            self.p.stdin.write((line + '\n').encode())
+            r = self.p.stdout.readline().decode().rstrip('\n')
+            self.cache[line] = r
+        return r
+
+    def seg(self, point, snap, term, orc):
+        kind, st, b, i, rq, sq, rb, sb, sl, ak = snap
+        line = 'seg %s %s %s %s %d %d 1 %s %d %d %d %d %d %d %d' % (self.variant, point, kind, st, b, i, rq, sq, rb, sb, sl, ak, term, orc)
+        act, post, nall = [x.strip() for x in self.ask(line).split('|')]
+        return act, post, set(() if nall == '-' else nall.split(','))
+
+    @staticmethod
+    def post_str(snap):
+        kind, st, b, i, rq, sq, rb, sb, sl, ak = snap
+        return '%s %d %d %s %d %d %d %d %d' % (st, b, i, rq, sq, rb, sb, sl, ak)
+
+    @staticmethod
+    def result_str(api, res):
+        if res[0] == 'llcp':
+            return 'ret llcp %d' % res[2]
+        if res[0] == 'exc':
+            return 'ret crash ' + res[1].split(':')[0]
+        v = res[1]
+        if isinstance(v, (tuple, list)):
+            v = v[0]
+        if v is None:
+            return 'ret ok None'
+        if v is True or v is False:
+            return 'ret ok ' + str(v)
+        if api.endswith('accept'):
+            return 'ret ok socket'
+        if api.endswith('resolve'):
+            return 'ret ok addr'
+        return 'ret ok data'
+
+    def mismatch(self, case, rec, why, extra=None):
+        self.nmis += 1
+        self.ck.count('segment-mismatch:' + rec['api'].split(':')[-1])
+        if self.strict:
+            self.ck.correspondence_mismatch('segment', {'case': {k: case.get(k) for k in ('scenario', 'cause', 'end_at', 'role')},
+                                                        'api': rec['api'], 'why': why, 'detail': extra,
+                                                        'at_call': rec['at_call'], 'result': rec['result'],
+                                                        'segs': [(g['lock'], g['pre'], g['post'], g['end']) for g in rec['segs']]})
+
+    def walk(self, case, rec):
+        api = rec['api'].split(':')[-1].split('.')[-1]
+        point = ENTRY.get(api)
+        if point is None or rec['at_call'] is None:
+            return
+        segs = list(rec['segs'])
+        state, term = rec['at_call'], rec['term_at_call']
+        want = self.result_str(rec['api'], rec['result']) if rec['result'] is not None else None
+        for _ in range(12):
+            name = point.split(':')[0]
+            unlocked = name in UNLOCKED or (self.variant == 'Orig' and name == 'PAcc3')
+            if unlocked:
+                cands = [self.seg(point, state, term, orc) for orc in (1, 0)]
+                ok = None
+                for act, post, nall in cands:
+                    if act.startswith('goto') or (act.startswith('ret') and not segs and (want is None or act == want)):
+                        ok = (act, post, nall)
+                        break
+                if ok is None:
+                    return self.mismatch(case, rec, 'unlocked step at %s' % point, [c[0] for c in cands])
+                self.nseg += 1
+                act = ok[0]
+            else:
+                lk = 'llc' if name in LLC_LOCKED else 'sock'
+                if not segs:
+                    if want is None:
+                        return            # the call was still in progress when the run ended
+                    return self.mismatch(case, rec, 'model expects a %s-lock segment at %s, none observed' % (lk, point))
+                sg = segs.pop(0)
+                if sg['lock'] != lk:
+                    return self.mismatch(case, rec, 'segment under the %s lock observed at %s' % (sg['lock'], point))
+                ok = None
+                tried = []
+                for orc in (1, 0):
+                    act, post, nall = self.seg(point, sg['pre'], sg['term'], orc)
+                    tried.append((act, post))
+                    if post != self.post_str(sg['post']) or nall != set(sg['nall']):
+                        continue
+                    if sg['end'][0] == 'wait':
+                        if act.startswith('wait ' + sg['end'][1] + ' '):
+                            ok = act
+                            break
+                    elif act.startswith('goto') or (act.startswith('ret') and not segs and (want is None or act == want
+                                                                                            or (name == 'PBind1' and act.startswith('ret llcp') and want.startswith('ret llcp')))):
+                        ok = act
+                        break
+                if ok is None:
+                    return self.mismatch(case, rec, 'segment at %s' % point, {'observed': (sg['pre'], self.post_str(sg['post']), sg['end'], sg['nall'], sg['term']), 'model': tried})
+                self.nseg += 1
+                act = ok
+                state, term = sg['post'], sg['term']
+            if act.startswith('ret'):
+                if segs:
+                    return self.mismatch(case, rec, 'call returned in the model but more segments were observed')
+                return
+            point = act.split()[-1]
+        return self.mismatch(case, rec, 'walk does not end')
+
+    def check_run(self, case, out):
+        for rec in out.get('records', []):
+            self.walk(case, rec)
+        for sg in out.get('link_segs', []):
+            kind, st, b, i, rq, sq, rb, sb, sl, ak = sg['pre']
+            line = 'close %s %s %d %d 1 %s %d %d %d %d %d' % (kind, st, b, i, rq, sq, rb, sb, sl, ak)
+            post, nall = [x.strip() for x in self.ask(line).split('|')]
+            self.nseg += 1
+            if post != self.post_str(sg['post']) or set(nall.split(',')) != set(sg['nall']):
+                self.nmis += 1
+                self.ck.count('segment-mismatch:terminate-close')
+                if self.strict:
+                    self.ck.correspondence_mismatch('terminate-close', {'pre': sg['pre'], 'post': sg['post'], 'notified': sg['nall'],
+                                                                        'model': (post, nall)})
+
+
+CORR = None
 
 
 def copy_peer(kw):
@@ -539,6 +718,12 @@ def main():
     if os.path.exists(os.path.join(os.path.dirname(__file__), '..', '..', 'coq', 'Props', 'C09.v')):
         coq_ok = ck.coq(gen=[], targets=['Proofs/LlcLife.vo'], props='C09')
     del coq_ok
+    global CORR
+    mr = ck.model()
+    if mr is not None:
+        variant = 'Fixed' if tree_is_fixed() else 'Orig'
+        ck.notes.append('model variant for the correspondence: ' + variant)
+        CORR = Correspondence(ck, mr.exe, variant)
 
     # corpus of minimised past failures first (each is a single deviation from the default schedule)
     roles = ('initiator', 'target')
@@ -579,6 +764,10 @@ def main():
     connect_returns(ck)
     device_still_broken(ck)
     ck.cov['schedules_run'] = total
+    if CORR is not None:
+        ck.cov['segments_validated_against_model'] = CORR.nseg - CORR.nmis
+        ck.cov['segment_mismatches'] = CORR.nmis
+        ck.cov['model_variant'] = CORR.variant
     ck.finish(level='proof',
               rule='scenario (blocking call) x cause of link end x exchange index of the end x role x schedule; schedules: default '
                    'non-pre-emptive, every single deviation, sampled pairs of deviations, seeded random. non-trivial = at least one '
